@@ -1,7 +1,9 @@
 package c04
 
 import (
+	"bytes"
 	"fmt"
+	"hash/crc32"
 	"net/http"
 	"net/http/httptest"
 	"sort"
@@ -15,7 +17,10 @@ import (
 
 // recorder is the client side of the connection: it keeps what a client would
 // see (status and header snapshot taken at the first WriteHeader/Write, like
-// net/http does, and the body bytes in order) and counts every call.
+// net/http does, and the body bytes in order) and counts every call.  Of the
+// body it keeps the length, a running checksum, whether bytes written by a work
+// are in it, and the first keepHead / last keepTail bytes; a body of at most
+// keepHead bytes is therefore kept as a whole.
 type recorder struct {
 	w      *world
 	id     int
@@ -23,10 +28,62 @@ type recorder struct {
 	wrote  bool
 	status int
 	snap   http.Header
-	body   []byte
 	calls  int
 	sealed bool // the outermost ServeHTTP has returned: the response is final
 	late   []string
+
+	n         int    // body bytes received
+	crc       uint32 // CRC-32C of the body
+	head      []byte
+	tail      []byte
+	workBytes bool // the body contains workMark
+}
+
+const (
+	keepHead = 512
+	keepTail = 48
+)
+
+var crcTable = crc32.MakeTable(crc32.Castagnoli)
+
+func (rc *recorder) absorb(p []byte) {
+	if len(p) == 0 {
+		return
+	}
+	if !rc.workBytes {
+		straddle := rc.n > 0 && rc.tail[len(rc.tail)-1] == workMark[0] && p[0] == workMark[1]
+		rc.workBytes = straddle || bytes.Contains(p, []byte(workMark))
+	}
+	rc.crc = crc32.Update(rc.crc, crcTable, p)
+	if room := keepHead - len(rc.head); room > 0 {
+		rc.head = append(rc.head, p[:min(room, len(p))]...)
+	}
+	if len(p) >= keepTail {
+		rc.tail = append(rc.tail[:0], p[len(p)-keepTail:]...)
+	} else {
+		rc.tail = append(rc.tail, p...)
+		if x := len(rc.tail) - keepTail; x > 0 {
+			rc.tail = append(rc.tail[:0], rc.tail[x:]...)
+		}
+	}
+	rc.n += len(p)
+}
+
+// whole says that head is the entire body.
+func (rc *recorder) whole() bool { return rc.n <= keepHead }
+
+func (rc *recorder) bodyDesc() string {
+	if rc.whole() {
+		return fmt.Sprintf("%q", rc.head)
+	}
+	return fmt.Sprintf("%d bytes %q...%q", rc.n, rc.head[:keepTail], rc.tail)
+}
+
+func descBytes(p []byte) string {
+	if len(p) <= 2*keepTail {
+		return fmt.Sprintf("%q", p)
+	}
+	return fmt.Sprintf("%d bytes %q...%q", len(p), p[:keepTail], p[len(p)-keepTail:])
 }
 
 func (rc *recorder) Header() http.Header { return rc.hdr }
@@ -48,7 +105,7 @@ func (rc *recorder) WriteHeader(code int) {
 
 func (rc *recorder) Write(p []byte) (int, error) {
 	if rc.sealed {
-		rc.late = append(rc.late, fmt.Sprintf("Write(%q)", p))
+		rc.late = append(rc.late, "Write("+descBytes(p)+")")
 		return len(p), nil
 	}
 	if !rc.wrote {
@@ -57,9 +114,9 @@ func (rc *recorder) Write(p []byte) (int, error) {
 	}
 	rc.calls++
 	if rc.w.r.Tracing() {
-		rc.w.r.Logf("#%d recorder %d Write(%q)", rc.w.tick(), rc.id, p)
+		rc.w.r.Logf("#%d recorder %d Write(%s)", rc.w.tick(), rc.id, descBytes(p))
 	}
-	rc.body = append(rc.body, p...)
+	rc.absorb(p)
 	return len(p), nil
 }
 
@@ -180,7 +237,7 @@ func (w *world) setupRest(n int) (func(int), func()) {
 		}()
 		q.tRet, q.returned = time.Now(), true
 		q.rec.seal()
-		r.Ev("return", int64(q.id), int64(q.rec.status), int64(len(q.rec.body)))
+		r.Ev("return", int64(q.id), int64(q.rec.status), int64(q.rec.n))
 		w.checkRest(q)
 	}
 	finish := func() {
@@ -199,13 +256,37 @@ type expected struct {
 	status     int
 	hdrBefore  map[string][]string // set before the response was started: must be there
 	hdrAnytime map[string][]string // every header the work set (those set later may or may not be sent)
-	body       string
+	chunks     []chunk             // the body: everything the work wrote, in order
+	n          int
+}
+
+// body builds the body; only for short ones.
+func (e expected) body() string {
+	var b strings.Builder
+	for _, c := range e.chunks {
+		b.Write(c.bytes())
+	}
+	return b.String()
+}
+
+func (e expected) crc() uint32 {
+	var v uint32
+	for _, c := range e.chunks {
+		v = crc32.Update(v, crcTable, c.bytes())
+	}
+	return v
+}
+
+func (e expected) bodyDesc() string {
+	if e.n <= keepHead {
+		return fmt.Sprintf("%q", e.body())
+	}
+	return fmt.Sprintf("%d bytes in %d chunks", e.n, len(e.chunks))
 }
 
 func (k *work) expected() expected {
 	e := expected{status: http.StatusOK, hdrBefore: map[string][]string{}, hdrAnytime: map[string][]string{}}
 	begun := false
-	var b strings.Builder
 	for _, a := range k.acts {
 		switch a.kind {
 		case sSetHdr:
@@ -219,10 +300,10 @@ func (k *work) expected() expected {
 			}
 		case sWrite:
 			begun = true
-			b.WriteString(a.chunk)
+			e.chunks = append(e.chunks, a.chunk)
+			e.n += a.chunk.size()
 		}
 	}
-	e.body = b.String()
 	return e
 }
 
@@ -243,12 +324,20 @@ func (e expected) matches(rc *recorder) (bool, string) {
 	if rc.status != e.status {
 		return false, fmt.Sprintf("status %d, the work's status is %d", rc.status, e.status)
 	}
-	if string(rc.body) != e.body {
-		return false, fmt.Sprintf("body %q, the work's body is %q", rc.body, e.body)
+	// the body: same length and same bytes (compared directly when the client's body is kept
+	// as a whole, by checksum otherwise)
+	if rc.n != e.n || (rc.whole() && string(rc.head) != e.body()) {
+		return false, fmt.Sprintf("body %s, the work's body is %s", rc.bodyDesc(), e.bodyDesc())
+	}
+	if !rc.whole() {
+		rc.w.r.Probe("rest-large-body-compared")
+		if rc.crc != e.crc() {
+			return false, fmt.Sprintf("body %s, which has the length of the work's body (%d chunks) but not its bytes", rc.bodyDesc(), len(e.chunks))
+		}
 	}
 	for _, k := range workHeaderKeys(rc.snap) {
 		if v, ok := e.hdrAnytime[k]; !ok || !sameVals(v, rc.snap[k]) {
-			return false, fmt.Sprintf("header %s=%v which the work did not set like that", k, rc.snap[k])
+			return false, fmt.Sprintf("header %s=%s which the work did not set like that", k, abbrevVals(rc.snap[k]))
 		}
 	}
 	var ks []string
@@ -258,7 +347,7 @@ func (e expected) matches(rc *recorder) (bool, string) {
 	sort.Strings(ks)
 	for _, k := range ks {
 		if !sameVals(e.hdrBefore[k], rc.snap[k]) {
-			return false, fmt.Sprintf("header %s=%v, the work set %v", k, rc.snap[k], e.hdrBefore[k])
+			return false, fmt.Sprintf("header %s=%s, the work set %s", k, abbrevVals(rc.snap[k]), abbrevVals(e.hdrBefore[k]))
 		}
 	}
 	return true, ""
@@ -301,7 +390,7 @@ func (w *world) checkRest(q *restCall) {
 		}
 		r.Probe("rest-panic-reraised")
 		if rc.calls > 0 || len(workHeaderKeys(rc.hdr)) > 0 {
-			r.Fail("rest/partial-response-with-panic", "%s: the work panicked, yet the client connection received status %d headers %v body %q", desc, rc.status, workHeaderKeys(rc.hdr), rc.body)
+			r.Fail("rest/partial-response-with-panic", "%s: the work panicked, yet the client connection received status %d headers %v body %s", desc, rc.status, workHeaderKeys(rc.hdr), rc.bodyDesc())
 		}
 		return
 	}
@@ -310,18 +399,30 @@ func (w *world) checkRest(q *restCall) {
 	if k.finished {
 		complete, why = exp.matches(rc)
 	}
+	if exp.n >= 64<<10 {
+		r.Probe("rest-work-wrote-64KB+")
+	}
+	if len(exp.chunks) >= 32 {
+		r.Probe("rest-work-wrote-32+chunks")
+	}
+	if len(exp.hdrAnytime) >= 16 {
+		r.Probe("rest-work-set-16+headers")
+	}
 	if complete {
 		r.Probe("rest-complete-result")
+		if exp.n >= 1<<20 {
+			r.Probe("rest-complete-result-1MB+")
+		}
 		return
 	}
 	// not the complete result: it has to be the pure timeout result
 	leakedHdr := workHeaderKeys(rc.snap)
-	leakedBody := strings.Contains(string(rc.body), "<w")
+	leakedBody := rc.workBytes
 	if (rc.status != http.StatusServiceUnavailable && rc.status != 499) || len(leakedHdr) > 0 || leakedBody {
 		if k.finished {
-			r.Fail("rest/incomplete-result", "%s: the work finished at t0+%v but the client sees %s (status %d headers %v body %q)", desc, k.tFin.Sub(q.t0), why, rc.status, leakedHdr, rc.body)
+			r.Fail("rest/incomplete-result", "%s: the work finished at t0+%v but the client sees %s (status %d headers %v body %s)", desc, k.tFin.Sub(q.t0), why, rc.status, leakedHdr, rc.bodyDesc())
 		} else {
-			r.Fail("rest/mixed-result", "%s: neither the work's complete result (%s) nor the timeout result: status %d, work headers %v, body %q", desc, why, rc.status, leakedHdr, rc.body)
+			r.Fail("rest/mixed-result", "%s: neither the work's complete result (%s) nor the timeout result: status %d, work headers %v, body %s", desc, why, rc.status, leakedHdr, rc.bodyDesc())
 		}
 		return
 	}
@@ -345,6 +446,12 @@ func (w *world) checkRest(q *restCall) {
 	}
 	if len(k.acts) > 0 {
 		r.Probe("timeout-result-discarded-partial-writes")
+	}
+	if exp.n >= 64<<10 {
+		r.Probe("timeout-result-discarded-64KB+")
+	}
+	if exp.n >= 1<<20 {
+		r.Probe("timeout-result-discarded-1MB+")
 	}
 }
 
